@@ -591,6 +591,20 @@ func TestCheck(t *testing.T) {
 		}
 	}
 	e.Set("removeprev_fault_runs", int64(faultRuns))
+	// a Write with a file name that cannot be created must fail and leave the target on the previous complete set
+	badRuns := 0
+	for _, sq := range seqs {
+		if len(sq) > 2 {
+			continue
+		}
+		for k := 1; k <= len(sq); k++ {
+			runPlanBadName(b, plan{Sets: sq}, k)
+			plans = append(plans, plan{Sets: sq})
+			runs++
+			badRuns++
+		}
+	}
+	e.Set("bad_file_name_runs", int64(badRuns))
 	// crypto/spiffe's use of dir.Write: certificate rotations on a fake clock
 	spiffeWrites := 0
 	for i := 0; i < ev.Pick(3, 20); i++ {
